@@ -27,7 +27,7 @@ use crate::util::read_ndjson;
 
 pub const CLUSTER_TOKEN_VALUE: &str = "verif-cluster-token";
 
-fn invoker(app: &Arc<AppShareData>) -> InvokerHandler {
+pub fn invoker(app: &Arc<AppShareData>) -> InvokerHandler {
     // the same wiring as main.rs
     let mut invoker = InvokerHandler::new(app.clone());
     invoker.add_config_handler(app);
